@@ -132,6 +132,10 @@ class JSONPointer:
         return index
 
     def _getitem(self, obj: Any, key: Any) -> Any:  # noqa: PLR0912
+        if isinstance(obj, str):
+            # A JSON string has no children, even though a Python str is indexable.
+            raise JSONPointerTypeError(f"{key}: can't index into a string")
+
         try:
             return getitem(obj, key)
         except KeyError as err:
